@@ -422,6 +422,8 @@ pub fn qf_history(ctx: &mut Ctx, nops: u64) {
     for _ in 0..(2 * nslots + 4) {
         let quo = if conc { (nslots - 1 - ctx.rng.below(nslots.min(3))) % nslots } else { ctx.rng.below(nslots) };
         let rem = ctx.rng.below(nrem) + if r > 3 { ctx.rng.below(2) * 5 } else { 0 };
+        // wide remainders: set high bits too (above bit 31, the top bit)
+        let rem = if r > 8 && ctx.rng.chance(1, 2) { rem | (1u64 << (r - 1).min(63)) | if r > 34 { 1u64 << 33 } else { 0 } } else { rem };
         let rem = if r >= 64 { rem } else { rem % (1u64 << r) };
         pool.push(if ident { qf_key(ctx, q, r, quo, rem) } else { ctx.rng.below(4 * nslots) });
     }
@@ -694,15 +696,31 @@ pub fn lossy_history(ctx: &mut Ctx, n: u64) {
 
 // ---------------------------------------------------------------------------------------------
 pub fn heap_history(ctx: &mut Ctx, n: u64) {
-    let k = ctx.rng.range(1, 5);
-    let (w, d) = match ctx.rng.below(4) {
+    // k = "keep everything" (huge) now and then
+    let k = if ctx.rng.chance(1, 12) { *ctx.rng.pick(&[u64::MAX, 1u64 << 63, 1u64 << 60, u64::MAX - 1]) } else { ctx.rng.range(1, 5) };
+    let (mut w, mut d) = match ctx.rng.below(4) {
         0 => (1, 1),
         1 => (ctx.rng.range(1, 3), ctx.rng.range(1, 3)),
         2 => (ctx.rng.range(4, 16), ctx.rng.range(1, 4)),
         _ => (256, 4),
     };
+    if ctx.rng.chance(1, 6) {
+        // the sketch sized by with_point_query_properties, delta over its whole range (0, 1)
+        let eps = *ctx.rng.pick(&[0.5f64, 0.1, 0.01, 0.9]);
+        let delta = *ctx.rng.pick(&[0.9999999999f64, 1.0 - 1e-12, 0.99, 0.5, 0.36, 0.37, 0.1, 1e-3]);
+        let a = ctx.op(format!("heap.props 1 {} {} {}", k, fx(eps), fx(delta)));
+        let t: Vec<&str> = a.split_whitespace().collect();
+        if t.len() == 3 && t[0] == "ok" {
+            w = t[1].parse().unwrap();
+            d = t[2].parse().unwrap();
+            ctx.stat("heap.props", 1);
+        } else {
+            ctx.op(format!("heap.new 1 {} {} {}", k, w, d));
+        }
+    } else {
+        ctx.op(format!("heap.new 1 {} {} {}", k, w, d));
+    }
     ctx.stat(&format!("heap.sketch.{}", if w * d == 1 { "1x1" } else if w <= 3 { "tiny" } else if w <= 16 { "small" } else { "wide" }), 1);
-    ctx.op(format!("heap.new 1 {} {} {}", k, w, d));
     ctx.op("heap.empty 1".into());
     ctx.op("heap.iter 1".into());
     let alpha = *ctx.rng.pick(&[2u64, 4, 8, 30]);
@@ -747,10 +765,10 @@ pub fn heap_history(ctx: &mut Ctx, n: u64) {
     }
     // clone_from into a heap with another k / sketch shape that holds other elements
     if ctx.rng.chance(1, 2) {
-        let k2 = *ctx.rng.pick(&[k + 2, (k / 2).max(1), 1, k, 9]);
+        let k2 = *ctx.rng.pick(&[k.saturating_add(2), (k / 2).max(1), 1, k, 9]);
         let (w2, d2) = *ctx.rng.pick(&[(w, d), (w + 1, d), (2, 2), (64, 3)]);
         ctx.op(format!("heap.new 7 {} {} {}", k2, w2, d2));
-        for _ in 0..ctx.rng.clone().below(2 * k2 + 3) {
+        for _ in 0..ctx.rng.clone().below(2 * k2.min(8) + 3) {
             let id = 500 + ctx.rng.below(6);
             let cols: Vec<String> = crate::exec::heap_cols(w2 as usize, d2 as usize, id % 3).iter().map(|c| c.to_string()).collect();
             ctx.op(format!("heap.add 7 {} {} {}", id, id % 3, cols.join(" ")));
@@ -760,8 +778,8 @@ pub fn heap_history(ctx: &mut Ctx, n: u64) {
             ctx.stat("heap.clonefrom", 1);
             ctx.op("both heap.iter 7 1".into());
             ctx.op("both heap.empty 7 1".into());
-            for _ in 0..(4 * k + 8) {
-                let id = if ctx.rng.chance(1, 3) { 900 + ctx.rng.below(2 * k + 2) } else { ctx.rng.below(alpha) };
+            for _ in 0..(4 * k.min(8) + 8) {
+                let id = if ctx.rng.chance(1, 3) { 900 + ctx.rng.below(2 * k.min(8) + 2) } else { ctx.rng.below(alpha) };
                 let class = id % nclass;
                 let cols: Vec<String> = crate::exec::heap_cols(w as usize, d as usize, class).iter().map(|c| c.to_string()).collect();
                 ctx.op(format!("both heap.add 7 1 {} {} {}", id, class, cols.join(" ")));
